@@ -17,6 +17,7 @@ import (
 	"go/token"
 	"os"
 	"path/filepath"
+	"runtime"
 	"sort"
 	"strconv"
 	"strings"
@@ -34,7 +35,23 @@ var lost []string
 var plainHash = map[string]string{}
 var baseFP map[string]string
 
-func anchorLost(f string, a ...interface{}) { lost = append(lost, fmt.Sprintf(f, a...)) }
+// anchorLost records a lost anchor together with its owner: the plug-in file (c08, c12, tup, …) whose
+// recogniser reported it, or "core" for the codec/framing recognisers of this file. vcheck breaks the
+// tie of a property only for anchors of the plug-ins that feed that property's model.
+func anchorLost(f string, a ...interface{}) {
+	owner := "core"
+	for i := 1; i < 12; i++ {
+		_, file, _, ok := runtime.Caller(i)
+		if !ok {
+			break
+		}
+		b := strings.TrimSuffix(filepath.Base(file), ".go")
+		if b != "main" && b != "expand" && b != "tables" && filepath.Base(filepath.Dir(file)) == "extract" {
+			owner = b
+		}
+	}
+	lost = append(lost, "["+owner+"] "+fmt.Sprintf(f, a...))
+}
 
 type file struct {
 	fset *token.FileSet
@@ -585,11 +602,9 @@ func main() {
 		expandHelpers = false
 	}
 
-	if len(lost) > 0 {
-		for _, l := range lost {
-			fmt.Println("ANCHOR-LOST:", l)
-		}
-		os.Exit(2)
+	lostFinal := lost
+	for _, l := range lostFinal {
+		fmt.Println("ANCHOR-LOST:", l)
 	}
 
 	var b strings.Builder
@@ -654,5 +669,8 @@ func main() {
 		}
 		j, _ := json.MarshalIndent(fps, "", " ")
 		os.WriteFile(*outFP, append(j, '\n'), 0o644)
+	}
+	if len(lostFinal) > 0 {
+		os.Exit(2)
 	}
 }
